@@ -6,9 +6,9 @@ CONSTANTS
   Names = {"a", "b"}
   DepthLens = {0, 1}
   Version = 21
-  Deviations = {"RenameKeepsLabel", "WsRemoveKeepsChild", "HoleRemovalKeepsObjectRows", "HoleRemovalKeepsGroupChild", "StalePgIdCache", "EmptyTableRaises", "TableByLabel", "CopySharesRecords", "PlainChildNotUnlinked", "UngroupedDataNotLoaded", "FailedCreateKeepsKey", "HoleRemovalKeepsEmptyPgRow"}
+  Deviations = {"RenameKeepsLabel", "WsRemoveKeepsChild", "HoleRemovalKeepsObjectRows", "HoleRemovalKeepsGroupChild", "StalePgIdCache", "EmptyTableRaises", "TableByLabel", "CopySharesRecords", "PlainChildNotUnlinked", "UngroupedDataNotLoaded", "FailedCreateKeepsKey", "HoleRemovalKeepsEmptyPgRow", "CopyTypesPurged"}
   MaxLevel = 3
-  Acts = {"Populate", "AddHole", "AddDepthData", "AddIntervalData", "SetValues", "Rename", "RemoveDataViaParent", "RemoveDataViaWorkspace", "RemoveHoleViaParent", "RemoveHoleViaWorkspace", "RemovePropertyGroup", "AddValuesToTable", "Reopen", "CopyGroup", "AddObjectData", "AddBadData", "RemovePlainChild", "CopyEdit", "ReopenRemoveHole"}
+  Acts = {"Populate", "AddHole", "AddDepthData", "AddIntervalData", "SetValues", "Rename", "RemoveDataViaParent", "RemoveDataViaWorkspace", "RemoveHoleViaParent", "RemoveHoleViaWorkspace", "RemovePropertyGroup", "AddValuesToTable", "Reopen", "CopyGroup", "AddObjectData", "AddBadData", "RemovePlainChild", "CopyEdit", "CopyPurge", "ReopenRemoveHole"}
   TrackSession = FALSE
   Kind = "float"
 VIEW vw
